@@ -61,12 +61,15 @@ func (l *Lexer) nextInsideToken() token.Token {
 
 	l.skipWhitespace()
 
+	// every token carries the line on which it begins
+	line := l.curLine
+
 	switch l.ch {
 	case '=':
 		if l.peekChar() == '=' {
 			ch := l.ch
 			l.readChar()
-			tok = token.Token{Type: token.EQ, Literal: string(ch) + string(l.ch), LineNumber: l.curLine}
+			tok = token.Token{Type: token.EQ, Literal: string(ch) + string(l.ch), LineNumber: line}
 		} else {
 			tok = l.newToken(token.ASSIGN)
 		}
@@ -76,7 +79,7 @@ func (l *Lexer) nextInsideToken() token.Token {
 			tokSplit := strings.Split(tok.Literal, ".")
 			switch {
 			case len(tokSplit) > 2:
-				return l.newIllegalTokenLiteral(token.ILLEGAL, tok.Literal)
+				return token.Token{Type: token.ILLEGAL, Literal: tok.Literal, LineNumber: line}
 			case len(tokSplit) == 2:
 				tok.Type = "FLOAT"
 			default:
@@ -91,14 +94,14 @@ func (l *Lexer) nextInsideToken() token.Token {
 	case '&':
 		if l.peekChar() == '&' {
 			l.readChar()
-			tok = token.Token{Type: token.AND, Literal: "&&", LineNumber: l.curLine}
+			tok = token.Token{Type: token.AND, Literal: "&&", LineNumber: line}
 			break
 		}
 		tok = l.newToken(token.ILLEGAL)
 	case '|':
 		if l.peekChar() == '|' {
 			l.readChar()
-			tok = token.Token{Type: token.OR, Literal: "||", LineNumber: l.curLine}
+			tok = token.Token{Type: token.OR, Literal: "||", LineNumber: line}
 			break
 		}
 		tok = l.newToken(token.ILLEGAL)
@@ -108,7 +111,7 @@ func (l *Lexer) nextInsideToken() token.Token {
 		if l.peekChar() == '=' {
 			ch := l.ch
 			l.readChar()
-			tok = token.Token{Type: token.NOT_EQ, Literal: string(ch) + string(l.ch), LineNumber: l.curLine}
+			tok = token.Token{Type: token.NOT_EQ, Literal: string(ch) + string(l.ch), LineNumber: line}
 		} else {
 			tok = l.newToken(token.BANG)
 		}
@@ -120,7 +123,7 @@ func (l *Lexer) nextInsideToken() token.Token {
 		if l.peekChar() == '>' {
 			l.inside = false
 			l.readChar()
-			tok = token.Token{Type: token.E_END, Literal: "%>", LineNumber: l.curLine}
+			tok = token.Token{Type: token.E_END, Literal: "%>", LineNumber: line}
 			break
 		}
 		tok = l.newToken(token.ILLEGAL)
@@ -131,33 +134,33 @@ func (l *Lexer) nextInsideToken() token.Token {
 			switch l.peekChar() {
 			case '#':
 				l.readChar()
-				tok = token.Token{Type: token.C_START, Literal: "<%#", LineNumber: l.curLine}
+				tok = token.Token{Type: token.C_START, Literal: "<%#", LineNumber: line}
 				l.commentPos, l.commentLine = l.readPosition, l.curLine
 			case '=':
 				l.readChar()
-				tok = token.Token{Type: token.E_START, Literal: "<%=", LineNumber: l.curLine}
+				tok = token.Token{Type: token.E_START, Literal: "<%=", LineNumber: line}
 			default:
-				tok = token.Token{Type: token.S_START, Literal: "<%", LineNumber: l.curLine}
+				tok = token.Token{Type: token.S_START, Literal: "<%", LineNumber: line}
 			}
 			break
 		}
 		if l.peekChar() == '=' {
 			l.readChar()
-			tok = token.Token{Type: token.LTEQ, Literal: "<=", LineNumber: l.curLine}
+			tok = token.Token{Type: token.LTEQ, Literal: "<=", LineNumber: line}
 			break
 		}
 		tok = l.newToken(token.LT)
 	case '~':
 		if l.peekChar() == '=' {
 			l.readChar()
-			tok = token.Token{Type: token.MATCHES, Literal: "~=", LineNumber: l.curLine}
+			tok = token.Token{Type: token.MATCHES, Literal: "~=", LineNumber: line}
 			break
 		}
 		tok = l.newToken(token.MATCHES)
 	case '>':
 		if l.peekChar() == '=' {
 			l.readChar()
-			tok = token.Token{Type: token.GTEQ, Literal: ">=", LineNumber: l.curLine}
+			tok = token.Token{Type: token.GTEQ, Literal: ">=", LineNumber: line}
 			break
 		}
 		tok = l.newToken(token.GT)
@@ -201,20 +204,20 @@ func (l *Lexer) nextInsideToken() token.Token {
 		if isLetter(l.ch) {
 			tok.Literal = l.readIdentifier()
 			tok.Type = token.LookupIdent(tok.Literal)
-			tok.LineNumber = l.curLine
+			tok.LineNumber = line
 			return tok
 		} else if isDigit(l.ch) {
 			tok.Literal = l.readNumber()
 			tokSplit := strings.Split(tok.Literal, ".")
 			switch {
 			case len(tokSplit) > 2:
-				return l.newIllegalTokenLiteral(token.ILLEGAL, tok.Literal)
+				return token.Token{Type: token.ILLEGAL, Literal: tok.Literal, LineNumber: line}
 			case len(tokSplit) == 2:
 				tok.Type = "FLOAT"
 			default:
 				tok.Type = "INT"
 			}
-			tok.LineNumber = l.curLine
+			tok.LineNumber = line
 			return tok
 		} else {
 			tok = l.newToken(token.ILLEGAL)
@@ -222,7 +225,7 @@ func (l *Lexer) nextInsideToken() token.Token {
 	}
 
 	l.readChar()
-	tok.LineNumber = l.curLine
+	tok.LineNumber = line
 	return tok
 }
 
@@ -254,10 +257,11 @@ func (l *Lexer) SkipComment(c CommentStart) token.Token {
 		return token.Token{Type: token.EOF, LineNumber: l.curLine}
 	}
 
+	line := l.curLine
 	l.inside = false
 	l.readChar()
 	l.readChar()
-	return token.Token{Type: token.E_END, Literal: "%>", LineNumber: l.curLine}
+	return token.Token{Type: token.E_END, Literal: "%>", LineNumber: line}
 }
 
 func (l *Lexer) skipWhitespace() {
@@ -394,8 +398,4 @@ func isDot(ch byte) bool {
 
 func (l *Lexer) newToken(tokenType token.Type) token.Token {
 	return token.Token{Type: tokenType, Literal: string(l.ch), LineNumber: l.curLine}
-}
-
-func (l *Lexer) newIllegalTokenLiteral(tokenType token.Type, literal string) token.Token {
-	return token.Token{Type: tokenType, Literal: literal, LineNumber: l.curLine}
 }
